@@ -71,6 +71,8 @@ type Engine struct {
 	pcs        []pcRec
 	rtypePtr   *RType
 	engineOnly map[string]bool
+	replay     *ReplayDoc
+	traceCalls bool
 }
 
 type KnownFinding struct {
@@ -298,6 +300,7 @@ func (w *Worker) run(s *State) {
 		if len(s.pending) == 0 {
 			s.made = s.made[:0]
 			s.symUndo = s.symUndo[:0]
+			s.choicesMark, s.rawMark, s.inputsMark = len(s.choices), len(s.rawChoices), len(s.inputs)
 		}
 		t := s.threads[s.cur]
 		if t.status == TDone {
@@ -573,7 +576,7 @@ func (s *State) evalDescribe(v Value) string {
 // addViolation must be called with e.mu held or from the owning worker before record.
 func (e *Engine) addViolation(s *State, kind, label, detail string) {
 	v := &Violation{Harness: s.harness, Kind: kind, Label: label, Detail: detail, Model: s.model,
-		Choices: append([]ChoiceRec(nil), s.choices...), Inputs: s.concreteInputs(s.model), Trace: append([]string(nil), s.trace...)}
+		Choices: append([]ChoiceRec(nil), s.choices...), Decisions: append([]int(nil), s.rawChoices...), Inputs: s.concreteInputs(s.model), Trace: append([]string(nil), s.trace...)}
 	for id := range s.knownIn {
 		if kf, ok := e.known[id]; ok && kf.Status == "open" {
 			v.Known = id
@@ -597,3 +600,14 @@ func (e *Engine) addViolation(s *State, kind, label, detail string) {
 }
 
 func repoFile(repo, name string) string { return filepath.Join(repo, name) }
+
+// ReplayDoc is a stored counterexample: harness, input values (by variable name) and the decision vector.
+type ReplayDoc struct {
+	Property  string            `json:"property"`
+	Harness   string            `json:"harness"`
+	Kind      string            `json:"kind"`
+	Label     string            `json:"label"`
+	Decisions []int             `json:"decisions"`
+	Values    map[string]uint64 `json:"values"`
+	Tier      int               `json:"tier"`
+}
